@@ -40,7 +40,7 @@ LAYOUT_UNIVERSE = Universe({
     "c0": VWS + "/R/conftest.py", "c1": VWS + "/R/sa/conftest.py", "c2": VWS + "/R/sa/b/conftest.py",
     "cs": VWS + "/R/s/conftest.py", "u": VWS + "/R/sa/b/test_u.py", "o": VWS + "/R/sa/b/test_o.py",
     "m": VWS + "/R/sa/b/mod_m.py", "h0": VWS + "/R/helper0.py", "h1": VWS + "/R/sa/helper1.py",
-    "h2": VWS + "/R/sa/b/helper2.py", "hh": VWS + "/R/sa/helperh.py",
+    "h2": VWS + "/R/sa/b/http.py", "hh": VWS + "/R/sa/helperh.py",
     "t0": VWS + "/R/test_t0.py", "t1": VWS + "/R/sa/test_t1.py",
     "pl": VWS + "/plugsrc/plug.py",
     "tp": VWS + "/venv/lib/python3.11/site-packages/tp/plugin.py",
